@@ -5,6 +5,7 @@ import Driver.SqlDb
 import Driver.Budget
 import Driver.PageLocks
 import Driver.KeyEnc
+import Driver.Simd
 
 def main (args : List String) : IO UInt32 := do
   let stdin ← IO.getStdin
@@ -17,4 +18,5 @@ def main (args : List String) : IO UInt32 := do
   | ["sqldb"] => Driver.loop stdin stdout ({} : TurVerif.SqlDb.DbState) Driver.SqlDb.step; return 0
   | ["sql"] => Driver.loop stdin stdout ([] : TurVerif.Sql.Db) Driver.Sql.step; return 0
   | ["key"] => Driver.loop stdin stdout () Driver.KeyEnc.step; return 0
+  | ["simd"] => Driver.loop stdin stdout Driver.Simd.St.init Driver.Simd.step; return 0
   | _ => IO.eprintln "usage: tvmodel <family>"; return 2
